@@ -103,6 +103,52 @@ class _PotComplement:
 
 
 
+@contract(CellConversion.pot_complement, props=['C11', 'C01', 'C18'], name='CellConversion.pot_complement[second-conversion]',
+          status='B')
+class _PotComplementTwice:
+    """Nothing of one conversion reaches the next one made in the same process: `#7` is expanded with the geometry that
+    cell 7 has in the deck being converted, also when an earlier CellConversion object expanded a cell 7 of its own."""
+    scope = '6 geometries of cell 7 x 6 geometries of the second cell 7 x 3 trees, every sign assignment of 3 surfaces'
+
+    def bounded(tier):
+        import itertools as _it
+        geoms = ['s1', 's-1', 's2', ('*', 1, 2), (':', -1, 3), ('*', -2, (':', 1, 3))]
+        trees = [('^',), ('*', ('^',), 3), (':', -3, ('^',))]
+        for g1, g2 in _it.product(range(len(geoms)), repeat=2):
+            for t in range(len(trees)):
+                yield {'g1': g1, 'g2': g2, 't': t}
+
+    def call(g1, g2, t):
+        geoms = ['s1', 's-1', 's2', ('*', 1, 2), (':', -1, 3), ('*', -2, (':', 1, 3))]
+        trees = [('^',), ('*', ('^',), 3), (':', -3, ('^',))]
+
+        def build(x):
+            if isinstance(x, str):
+                return mk_surface(int(x[1:]))
+            if isinstance(x, int):
+                return mk_surface(x)
+            if x == ('^',):
+                return GeomExpression(('^', Cell('7')))
+            return GeomExpression((x[0],) + tuple(build(y) for y in x[1:]))
+        out = []
+        for g in (g1, g2):
+            conv = new_conv(cells={7: mk_cell(build(geoms[g]))})
+            out.append((conv.pot_complement(build(trees[t])), build(geoms[g]), build(trees[t])))
+        return out
+
+    def ensures(result, g1, g2, t):
+        import itertools as _it
+        from specs.boolean import DictSem
+        for k, (res, geom7, tree) in enumerate(result):
+            ok = True
+            for signs in _it.product((False, True), repeat=3):
+                surf = {(i + 1, 0): signs[i] for i in range(3)}
+                sem0 = DictSem(surfaces=surf)
+                sem = DictSem(surfaces=surf, cells={7: den(geom7, sem0)})
+                ok = ok and (den(res, sem) == den(tree, sem))
+            yield f'conversion{k + 1}:denotation-preserved', ok and not has_complement(res)
+
+
 # ------------------------------------------------------------------ inline_cells_worker (C13: every `to_inline` set)
 
 class OpaqueNode(Opaque):
